@@ -252,8 +252,9 @@ CLAIMED = {
         text='PR.is_up_to_date: True only with a batch whose recorded target_sha is the branch\'s current sha, never while that sha is unknown. '
         'PR.is_mergeable: True only if approved, at least one reported check and all SUCCESS, up to date, no do-not-merge label; with the representation invariant J (build_state == success => current batch completed successfully) a green own status implies the current batch succeeded. '
         'J maintained: PR._update_batch (loop contract over the batch listing: success only together with the completed successful batch it selects), PR.update_from_gh_json (a new head drops batch, merge sha and build state), PR._start_build resets batch and build state first (statement-order obligation), no other writer of success. '
-        'WatchedBranch.try_to_merge: merge requested only for the PR just found mergeable, at most one successful merge per call, afterwards the branch sha is forgotten and a GitHub refresh scheduled (so no PR is up to date until the new head is read and re-tested). PR.merge names source_sha and reports success only if GitHub accepted.',
-        note=COMMON_NOTE + 'Assumed: GitHub stale-head protection of the merge call; _update serialises updates per branch; statuses are re-read for the current head in the same pass; test batches of a PR head are created only by _start_build (history precondition of _update_batch). PR._update_github: paging loop and status map under contract (all pages, cursor chaining, every required check recorded); the mapping of individual GraphQL states by github_status() is an uninterpreted function.',
+        'WatchedBranch.try_to_merge: merge requested only for the PR just found mergeable, at most one successful merge per call, afterwards the branch sha is forgotten and a GitHub refresh scheduled (so no PR is up to date until the new head is read and re-tested). PR.merge names source_sha and reports success only if GitHub accepted. '
+        'utils.github_status: SUCCESS only for the reported states SUCCESS / NEUTRAL, ValueError exactly for unknown values (None included). PR._update_github (calling it through that contract, exceptional outcome included): all pages fetched with chained cursors, every required check recorded, a check recorded as SUCCESS only if GitHub reported it successful, and every exceptional exit leaves review_state and the recorded statuses exactly as the last complete refresh left them (failed on the tree before fix 49bbf031b; history replayed natively).',
+        note=COMMON_NOTE + 'Assumed: GitHub stale-head protection of the merge call; _update serialises updates per branch; test batches of a PR head are created only by _start_build (history precondition of _update_batch); a status rollup lists every context / check-run name once. Not decided: how fresh the last complete refresh is relative to GitHub when a batch callback triggers a merge attempt (polling).',
         technique='contracts on the real methods (finite maps for statuses/labels, loop invariants), pyvc -> z3; closed-world and statement-order obligations by AST',
         design_ref='7/C30',
     ),
